@@ -1354,7 +1354,7 @@ class ArgumentParser(ParserDeprecations, ActionsContainer, ArgumentLinking, argp
     ) -> Namespace:
         """Runs _check_value_key on actions present in config."""
         if isinstance(cfg, dict):
-            cfg = Namespace(cfg)
+            cfg = Namespace(cfg).clone()  # namespaces held by the given dict are not modified
         if parent_key:
             cfg_branch = cfg
             cfg = Namespace()
